@@ -171,3 +171,19 @@ def leading_class(toks):
         if c in cl:
             return c
     return '-'
+
+
+def command_class(cmd):
+    """features of the command text, for violation signatures"""
+    f = []
+    if '"""' in cmd:
+        f.append('triple-dq')
+    if "'''" in cmd:
+        f.append('triple-sq')
+    if '\\' in cmd:
+        f.append('backslash')
+    if '%' in cmd:
+        f.append('percent')
+    if any(ord(c) > 127 for c in cmd):
+        f.append('non-ascii')
+    return '+'.join(f) or 'plain'
